@@ -39,3 +39,9 @@ package bugcmd
 //@   props C19
 //@   stable execenv.lastLoader, execenv.lastCloser, all(cobra.Command.PreRunE), all(cobra.Command.RunE)
 //@   check [a-command-that-opens-the-cache-gives-it-back] cmd != nil && cmd.PreRunE == execenv.lastLoader && cmd.RunE == execenv.lastCloser
+
+// `git bug rm <prefix>` removes what the prefix names (C14: "removes all of it, only it"): the argument goes to the
+// cache's Remove, which resolves it or fails - there is no fall-back to the selected bug.
+//@ func runBugRm
+//@   props C14
+//@   assert at `err = env.Backend.Bugs().Remove(args[0])` [removes-what-was-named] len(args) > 0
